@@ -71,3 +71,43 @@ Proof.
   split; [vm_compute; reflexivity|]. split; [vm_compute; reflexivity|].
   split; [discriminate|vm_compute; reflexivity].
 Qed.
+
+Lemma reinit_facts : sem_facts reinit_sem demo_aug reinit.
+Proof.
+  split.
+  - intros a Ha args v _ Hs. typed_cases Ha Hs.
+  - intros op e t Ha. cbn in Ha. destruct Ha.
+Qed.
+
+Lemma reinit_refuted :
+  exists c trP trC,
+    transl reinit = Some c /\ sem_facts reinit_sem demo_aug reinit /\
+    pprog_exec reinit_sem demo_aug 20 0 reinit = Some trP /\
+    cprog_exec reinit_sem demo_aug (info_of reinit) 20 0 false c = Some trC /\
+    trP <> trC /\ guard_ok reinit = false.
+Proof.
+  eexists. exists [EvSer (VI 5)], [EvSer (VI 0)].
+  split; [vm_compute; reflexivity|]. split; [exact reinit_facts|].
+  split; [vm_compute; reflexivity|]. split; [vm_compute; reflexivity|].
+  split; [discriminate|vm_compute; reflexivity].
+Qed.
+
+Lemma looplocal_facts : sem_facts looplocal_sem demo_aug looplocal.
+Proof.
+  split.
+  - intros a Ha args v _ Hs. typed_cases Ha Hs.
+  - intros op e t Ha. cbn in Ha. destruct Ha.
+Qed.
+
+Lemma looplocal_refuted :
+  exists c trP trC,
+    transl looplocal = Some c /\ sem_facts looplocal_sem demo_aug looplocal /\
+    pprog_exec looplocal_sem demo_aug 20 2 looplocal = Some trP /\
+    cprog_exec looplocal_sem demo_aug (info_of looplocal) 20 2 true c = Some trC /\
+    trP <> trC /\ guard_ok looplocal = false.
+Proof.
+  eexists. exists [EvSer (VI 5); EvSer (VI 5)], [EvSer (VI 5); EvSer (VI 0)].
+  split; [vm_compute; reflexivity|]. split; [exact looplocal_facts|].
+  split; [vm_compute; reflexivity|]. split; [vm_compute; reflexivity|].
+  split; [discriminate|vm_compute; reflexivity].
+Qed.
